@@ -4,23 +4,10 @@ from __future__ import annotations
 from . import io_rules2 as io2
 from . import loader_rules as lr
 
-EXPLANATION = (
-    "The core claim (no CPU file holding a qualifying cell is dropped, for all key tables and boxes) is an inequality over "
-    "integers for all inputs and is NOT decided. Decided necessary ingredients: (R1) the Hilbert state diagram literal "
-    "satisfies the automaton axioms: digit permutations, states in range and reachable, and the curve it generates on the "
-    "2^L grids (L=1..4, generated by the checker's own automaton from the extracted literal) is a bijection with unit steps "
-    "from (0,0,0) to (2^L-1,0,0); slot and bit roles agree between write and read sites; (R3/R4) predicates are ANDed with "
-    "the leaf mask and see unit-carrying buffers; (R5) cpu_list flow folded over (explicit list given or not) x (automatic "
-    "list or none) x (no cpu readers): an explicit list always wins; AmrReader takes its list from hilbert_cpu_list, which "
-    "returns None unless a positional predicate produced a box; (R6) bound-key table parse; (R7) the search cubes are the "
-    "full 2x2x2 product; (R8) key-interval tests as an ordering truth table over the five positions of a cube key against a "
-    "CPU's half-open key range; union over cubes, inclusive, 1-based; (R9) bounding-box pairing and sampling grid; (R10) the "
-    "key stride uses levelmax (the resolution of the bound keys), and both lmax and levelmax are passed.")
-NOT_DECIDED = ("soundness of the cube-level choice and key arithmetic as an inequality over all boxes and key tables; that "
-               "R7-R10 together imply the equivalence; 1-D/2-D behaviour")
-TRUSTED = ("CPython ast", "S5 Hilbert automaton axioms (no copy of the RAMSES table is kept)")
-TECHNIQUE = ("static analysis: axiom checking of the extracted state-diagram literal, ordering truth tables, finite-case folding "
-             "of the cpu-list flow, formula and pairing rules")
+EXPLANATION = "(R1) the 8x2x12 state table used by _hilbert3d satisfies the automaton axioms (digit permutation per state, states in range and reachable) and generates, in the checker's own automaton, a bijective unit-step curve with the RAMSES end points for bit lengths 1-4; _hilbert3d interpreted on the COMPLETE domain of cells for bit lengths 1 and 2 equals that automaton (bit/slot roles); (R3) Loader.load fold: cells selected with the conjunction of every reader's conditions incl. the leaf flags; leaf rule; predicates applied to unit-carrying buffers; (R5) Loader.load fold: Hilbert list used when no explicit list, explicit list wins, no files without cpu readers; hilbert_cpu_list over abstract predicates (symbolic first/last selected centre): box = [first centre - half cell, last centre + half cell] per axis, early exits return None; (R6) _read_bound_key on token lines; _get_cpu_list over every order type of a cube key range against the cpu key intervals, box size classes, the 8-corner cube product and the key stride with and without a level cap."
+NOT_DECIDED = 'bit lengths above 2 for the function itself (bounded fold; the table axioms cover 1-4); conservativeness of the box-to-cube reduction for all boxes; non-Hilbert orderings (fall back to all files)'
+TRUSTED = ('CPython ast', 'RAMSES key convention (bound keys at resolution levelmax+1)', 'the interpreter sa/models.py')
+TECHNIQUE = 'static analysis: table axioms, complete-finite-domain folding (order types, small bit lengths), abstract interpretation over symbolic predicates'
 
 from . import loader_folds as lfold
 from . import hilbert_folds as hf
